@@ -40,7 +40,7 @@ ASSUMPTIONS = [
   'with overwrite=True a crash in the middle of removing several newer steps may leave an intermediate newer step as latest; the oracle then requires latest to be a complete previously committed step (narrow reading, see DESIGN.md)',
   'save_checkpoint_multiprocess is covered on one host without multi-process arrays only; multi-host arrays, GCS paths, Orbax AsyncCheckpointer are not covered',
 ]
-PROBES = ['orbax_debris_in_legacy_dir', 'step0_with_keep_every', 'async_save_failed_with_ioerror', 'entry_multiprocess', 'legacy_debris_in_orbax_dir', 'source_mutated_after_async_save', 'restore_by_path', 'orbax_histories', 'leftover_tmp_after_crash', 'crash_after_commit', 'crash_before_commit', 'retry_rejected_committed', 'overwrite_removed_newer', 'keep_every_retained', 'chunked_leaf', 'async_latest_in_flight', 'sweep_points', 'policy_error_expected', 'torn_write', 'ioerror_runs']
+PROBES = ['legacy_checkpoint_in_orbax_dir', 'orbax_debris_in_legacy_dir', 'step0_with_keep_every', 'async_save_failed_with_ioerror', 'entry_multiprocess', 'legacy_debris_in_orbax_dir', 'source_mutated_after_async_save', 'restore_by_path', 'orbax_histories', 'leftover_tmp_after_crash', 'crash_after_commit', 'crash_before_commit', 'retry_rejected_committed', 'overwrite_removed_newer', 'keep_every_retained', 'chunked_leaf', 'async_latest_in_flight', 'sweep_points', 'policy_error_expected', 'torn_write', 'ioerror_runs']
 
 GOOD_PREFIXES = ['checkpoint_', 'ckpt', 'a_b_', 'run1_', 'model.x']
 BAD_PREFIXES = ['m-', 'v2.', 'run1']  # end in '-', '.', digit: were glued to the step before fix 943634b
@@ -142,6 +142,9 @@ def generate(rs, tier):
     asyn = False
     # the directory may have been used with the legacy back-end before: an interrupted legacy save leaves <prefix>tmp
     knobs['legacy_debris'] = g.random() < 0.3
+    # ... and may still hold a committed legacy (msgpack file) checkpoint at one of the steps of this history
+    if g.random() < 0.35:
+      knobs['legacy_ckpt'] = dict(step=g.choice(sorted(pool)[:3]), tmpl=g.randrange(4))
   every_hist = g.choice([None, None, 2, 3, 5])
   # (step 0 stays in the pool also with keep_every_n_steps: the first retained-by-spacing checkpoint may be step 0,
   #  which the retention loop skipped before fix "keep_every_n_steps never retained step 0")
@@ -961,7 +964,21 @@ def execute(plan):
   try:
     w.install()
     try:
+      lc = k.get('legacy_ckpt')
+      if lc and k['backend'] == 'orbax':
+        # committed by the legacy back-end before the history starts (a run begun with flax_use_orbax_checkpointing
+        # off, or an older flax); from here on it is one more retained step of the directory
+        config.update('flax_use_orbax_checkpointing', False)
+        try:
+          ent0 = (5000 + lc['tmpl'], lc['tmpl'])
+          checkpoints.save_checkpoint(w.dir, w.tree_of(ent0), lc['step'], prefix=w.prefix, keep=8)
+        finally:
+          config.update('flax_use_orbax_checkpointing', True)
+        w.model[lc['step']] = ent0
+        res.probe('legacy_checkpoint_in_orbax_dir')
       for oi, op in enumerate(plan['ops']):
+        if lc and k['backend'] == 'orbax' and op['op'] == 'save' and op['step'] == lc['step'] and op['overwrite']:
+          op = dict(op, overwrite=False)  # Orbax's force-overwrite of a FILE is Orbax's business; the rejection path is the point here
         w.step(oi, op)
       w.finish()
     except Violation as v:
